@@ -631,6 +631,45 @@ def dir_mode_links(chk, stats):
                 chk.oracle_fail("directory mode: directories/links left unrenamed with status 0: %r" % (left,), case)
 
 
+def linked_entries_sort(chk, stats):
+    """Several NAMES of one file (hard links; a symbolic link next to its target): the sort key of an entry is computed from
+    that entry's own name, whatever else on disk is the same file."""
+    import os
+    cases = [("%Name()", False), ("%Name()", True), ("%Lower{%Name()}, %Name()", False), ("%Ext(), %Name()", True), ("len(%Name()), %Name()", False)]
+    for expr, inv in cases:
+        with Sandbox("verif-c08-h") as root:
+            d = os.path.join(root, "in")
+            os.mkdir(d)
+            for nm, content in (("b.txt", "1"), ("k.md", "22"), ("zebra", "333"), ("mango.txt", "4444")):
+                with open(os.path.join(d, nm), "w") as fh:
+                    fh.write(content)
+            os.link(os.path.join(d, "b.txt"), os.path.join(d, "x.txt"))          # second name of b.txt
+            os.link(os.path.join(d, "k.md"), os.path.join(d, "a_k.md"))
+            os.symlink("zebra", os.path.join(d, "apple"))                        # link next to its target
+            os.symlink("mango.txt", os.path.join(d, "nectarine.txt"))
+            names = sorted(os.listdir(d))
+            argv = ["-s", expr] + (["-si"] if inv else []) + ["--", "n%Count(width=2)_%Name()", d]
+            res = cli_driver.run_cli(argv, root, root=root, snapshots=False, trace=False)
+            got = {}
+            for nm in os.listdir(d):
+                m = re.match(r"n(\d+)_(.*)$", nm)
+                if m:
+                    got[m.group(2)] = int(m.group(1))
+
+        def key(nm):
+            ext = PurePosixPath(nm).suffix
+            return {"%Name()": (nm,), "%Lower{%Name()}, %Name()": (nm.lower(), nm), "%Ext(), %Name()": (ext, nm),
+                    "len(%Name()), %Name()": (len(nm), nm)}[expr]
+        order = sorted(names, key=key, reverse=inv)
+        exp = {nm: i for i, nm in enumerate(order)}
+        chk.count(("linked-entries-sort", expr, inv))
+        stats["linked_entries_sort_runs"] = stats.get("linked_entries_sort_runs", 0) + 1
+        if res.status != 0 or got != exp:
+            chk.oracle_fail("sorting entries that are hard links / a link next to its target by %r%s: status %s, numbering %r, the names give %r" % (
+                expr, " inverted" if inv else "", res.status, sorted(got.items(), key=lambda kv: kv[1]), order),
+                {"argv": argv[:-1] + ["<root>/in"], "entries": names, "status": res.status, "stderr": res.stderr[-200:]})
+
+
 def run(chk):
     rng = chk.rng
     n = 2000 if chk.tier == "quick" else 30000
@@ -650,7 +689,8 @@ def run(chk):
 
     _st0 = {}
     dir_mode_links(chk, _st0)
-    stats = {"corpus": n_corpus, "generated": n, "dir_mode_link_runs": _st0.get("dir_mode_link_runs", 0), "mode": {}, "invert": 0, "with_filter": 0, "recursive": 0,
+    linked_entries_sort(chk, _st0)
+    stats = {"corpus": n_corpus, "generated": n, "dir_mode_link_runs": _st0.get("dir_mode_link_runs", 0), "linked_entries_sort_runs": _st0.get("linked_entries_sort_runs", 0), "mode": {}, "invert": 0, "with_filter": 0, "recursive": 0,
              "two_roots": 0, "key_shapes": {}, "cases_with_ties": 0, "sorter_input_sizes": {}, "dir_sort_refused": 0,
              "per_directory_count": 0, "max_inputs": 0, "hidden": 0, "skipped_ambiguous_report": 0}
     sort_cases, sort_meta, depth_cases, depth_meta = [], [], [], []
